@@ -50,7 +50,7 @@ def check(run):
                     "10 function strings (a0*x**2, a0*x**3, a0, a0*x, a0*x**4, a0*exp(a1*x), pow(x,a0) incl. the a0=2 branch, x**3, x**2, a0*(x+a1)**2), random positive parameters and redshift samples",
                     n["analytic"], n["analytic_exercised"], nf_an,
                     note="%d cases where sympy did not integrate in time are counted as not exercised" % res.get("not_integrated", 0))
-    if n["analytic_exercised"] == 0:
+    if n["analytic_exercised"] == 0 and not res["n_failures"]:
         raise CheckerError("the analytic path was never exercised (no string integrated within the time limit)")
     run.notes.append("existing behaviour, not part of C19: get_pred with a new redshift set WITHOUT clear_data() re-uses the grid and mask of the "
                      "first set (the cache is keyed on nothing): outcomes over %d cases: %s" % (n["numeric"], res["stale_cache_behaviour"]))
